@@ -8,10 +8,20 @@ var Checks = map[string]func(*Env) int{
 	"C04": CheckC04,
 	"C05": CheckC05,
 	"C06": CheckC06,
+	"C07": CheckC07,
 	"C08": CheckC08,
+	"C09": CheckC09,
+	"C11": CheckC11,
+	"C12": CheckC12,
 }
 
 // Replay re-runs a saved replay bundle against the current tree.
 func Replay(path string) int {
 	return replay(path)
+}
+
+// Warm fills the build cache: wire itself (done by NewEnv) and one rendered module.
+func Warm(e *Env) {
+	progs := genPool(e, "warm", 3, nil)
+	RunPool(e, progs, PoolOpts{Execute: true, Name: "warm"})
 }
